@@ -85,6 +85,7 @@ CLAIMS = {
     "C17": ("Lmdb level, one write transaction, event as a local image: after Lmdb::index the id/time/author/author-kind tables hold 1 entry and "
             "the three tag tables equally many; after Lmdb::deindex + deindex_id every table is empty again - for a single tag [L ab] with an "
             "ARBITRARY one-byte tag name L (either case, digits, any byte), for the constant names E (upper case) and 7 (not a letter) - the two classes where index() and deindex() could disagree, kept constant so that a divergence stays decidable - and for the same indexable tag repeated twice.", DB_NOTE +
+            "Thorough tier adds the constant four-tag shape [e ab] [e ab] [q] [] (name without value, empty tag; 526 s). " +
             "Not decided: access-path agreement (find_events over stored events), the Store-level removal wrappers and statistics "
             "(thorough harnesses, hit their caps), several events.", "DESIGN.md 8.3 C17"),
     "C18": ("Store level: an event whose kind is arbitrary in 20000..=30010 is stored by a complete store_event, retrievable iff not ephemeral, and "
